@@ -676,16 +676,38 @@ pub fn moved_observations(buf: &[u8]) -> Vec<(usize, Value)> {
         let off = (16 - (v.as_ptr() as usize % 16)) % 16;
         let mut out = Vec::new();
         v[off..off + buf.len()].copy_from_slice(buf);
-        let base = inplace_entry_points(&v[off..off + buf.len()]);
+        // compared through the Debug text of each entry point's result (cheap); the full
+        // observation is taken only where that differs
+        let base = result_digest(&v[off..off + buf.len()]);
         for &k in shifts {
             v[off + k..off + k + buf.len()].copy_from_slice(buf);
-            let o = inplace_entry_points(&v[off + k..off + k + buf.len()]);
-            if o != base {
-                out.push((k, o));
+            if result_digest(&v[off + k..off + k + buf.len()]) != base {
+                out.push((k, inplace_entry_points(&v[off + k..off + k + buf.len()])));
             }
         }
         out
     })
+}
+
+/// The Debug text of what each of the six entry points returns for `buf`, parsed in place.
+fn result_digest(buf: &[u8]) -> String {
+    let text = std::str::from_utf8(buf).ok();
+    let p = |r: Result<String, String>| r.unwrap_or_else(|m| format!("panic {}", m));
+    let mut d = String::new();
+    d.push_str(&p(guard(|| format!("{:?}", v1::Header::try_from(buf)))));
+    d.push('|');
+    d.push_str(&p(guard(|| format!("{:?}", v2::Header::try_from(buf)))));
+    d.push('|');
+    d.push_str(&p(guard(|| format!("{:?}", ppp::HeaderResult::parse(buf)))));
+    if let Some(s) = text {
+        d.push('|');
+        d.push_str(&p(guard(|| format!("{:?}", v1::Header::try_from(s)))));
+        d.push('|');
+        d.push_str(&p(guard(|| format!("{:?}", s.parse::<v1::Header>()))));
+        d.push('|');
+        d.push_str(&p(guard(|| format!("{:?}", s.parse::<v1::Addresses>()))));
+    }
+    d
 }
 
 /// All six entry points on one buffer.
